@@ -173,6 +173,11 @@ def mon_c14(sc, obs):
                 return (f"op #{n} get_data({g}) on object {i} returns {what}", f"{st['ret']}", None)
             if after != before:
                 return (f"op #{n} get_data({g}) on object {i} does not create or change any row", "tables changed", None)
+        if op[0] == 11:         # add_knowledge(f, world=w) / reset_world: EVERY row of f reads the new default, also rows that joins introduced
+            i, w = op[1], sx.bnd(op[2])
+            for g, b in after[i].items():
+                if b != w:
+                    return (f"op #{n} add_knowledge(object {i}, world={w}): every grounding of it reads the new default, also {g} (was {before[i].get(g)})", f"{b}", None)
         if op[0] == 1:          # node upward: writes only the operator; rows it introduces into operands start at their default
             i = op[1]
             for j in set(tr.kb[i][1]):
@@ -782,7 +787,9 @@ def check_C10(ctx):
     ctx.cov["fact_order_pairs"] = nperm
     ctx.corpus(["d5_not_rows.py"])
     ctx.assumptions.append("the theorem covers ALL row orders of the model; on the implementation only the listed PYTHONHASHSEEDs are run")
-    return ctx.finish("proof", pr, st, rule=RULE_K6 + f"; C10: each program is run in fresh interpreters under PYTHONHASHSEED in {list(seeds)} and once more with every data dictionary and the list of add_data calls permuted; "
+    import checks_quant
+    checks_quant.c10_quant_part(ctx)
+    return ctx.finish("proof", pr, st, rule=RULE_K6 + f"; quantifier scenarios (K7, growth in any order, nests) under 4 (8) hash seeds against the deterministic model; C10: each program is run in fresh interpreters under PYTHONHASHSEED in {list(seeds)} and once more with every data dictionary and the list of add_data calls permuted; "
                       "canonical (sorted by grounding) dumps after every operation must be identical")
 
 
